@@ -985,12 +985,17 @@ func wgRunOne(b *BatchResult, prop string, seed, run uint64, p wgParams) {
 				}
 				continue
 			}
-			wj, _ := json.Marshal(wl)
+			var wj []byte
+			desc := ""
+			if b.keeping() {
+				wj, _ = json.Marshal(wl)
+				desc = wl.Model.describe()
+			}
 			cfg := s.cfg
 			cfg.Tape = st.TapeUsed
 			cfg.Generative = false
 			v := Violation{Property: prop, Engine: "wgsim", Class: x.class, Detail: x.detail, Seed: seed, Run: run,
-				Workload: wj, Sched: cfg, SchedName: s.name, Fingerprint: fpString(st.Fingerprint), Describe: wl.Model.describe()}
+				Workload: wj, Sched: cfg, SchedName: s.name, Fingerprint: fpString(st.Fingerprint), Describe: desc}
 			v.Known = wgKnown(prop, x, wl, c.ref)
 			b.violation(v)
 		}
